@@ -109,6 +109,7 @@ pub fn run(out: &mut Out, which: &str, seed: u64, thorough: bool) {
         "tol" => tol(out, &mut rng, 900 * k),
         "junk" => junk(out, &mut rng, 120 * k),
         "total" => total(out, &mut rng, 1500 * k),
+        "chain" => chain(out, if thorough { 6000 } else { 2500 }),
         x => panic!("unknown reader driver {x}"),
     }
 }
@@ -504,6 +505,38 @@ pub fn total(out: &mut Out, rng: &mut Rng, count: usize) {
         };
         begin(out, &mut n, &s, "single", json!({}));
         run_reader::<DynTag>(out, "total", &bytes, &c, &sc, &calls);
+        out.ev(json!({"ev":"end"}));
+    }
+}
+
+/// C05: long runs of sibling masters that are requested as buffered (a Matroska file with thousands of buffered Clusters):
+/// every call returns - the depth of the call stack must not grow with the number of siblings.  The cases are marked
+/// `big`: the design-conformance modes (L1 / LB) skip them, the monitor P_C05 reads result classes only.
+pub fn chain(out: &mut Out, siblings: usize) {
+    let s = gen::s3();
+    let mut n = 0usize;
+    for (known_b, known_a) in [(true, false), (false, false), (true, true)] {
+        // A{ B{Q=1} B{Q=1} ... }
+        let mut body: Vec<u8> = Vec::with_capacity(siblings * 12);
+        for k in 0..siblings {
+            body.push(0x82);
+            if known_b { body.push(0x83); } else { body.push(0xff); }
+            body.extend([0x8a, 0x81, (k % 251) as u8]);
+        }
+        let mut bytes = vec![0x81];
+        if known_a { bytes.extend(gen::size_field(body.len() as u64, 0)); } else { bytes.push(0xff); }
+        bytes.extend(body);
+        let mut c = ReaderCfg::strict(); c.buffer = vec![0x82];
+        begin(out, &mut n, &s, "single", json!({"big": true}));
+        // on a thread with a small stack (256 KiB): the depth of the call stack must not depend on the number of siblings -
+        // an overflow aborts the process, which the check reports with this case as the witness
+        out.flush();
+        std::thread::scope(|sc| {
+            let o = &mut *out;
+            std::thread::Builder::new().stack_size(256 * 1024).spawn_scoped(sc, move || {
+                run_reader::<DynTag>(o, "chain", &bytes, &c, &[], &Calls::UntilEnd { extra: 1, max_calls: siblings + 10 });
+            }).expect("spawn").join().expect("chain thread");
+        });
         out.ev(json!({"ev":"end"}));
     }
 }
